@@ -318,6 +318,102 @@ theorem decObjects_insert (P : Prims) (st : EncState) (id : ObjId) (x : Obj) (os
         · simp [decObjects, hi', ho, ihr]
 
 
+/-! ### object streams: `decrypt_raw` re-expands them after decrypting -/
+
+mutual
+theorem normLen_strip (st : EncState) (o : Obj) : strip (normLen st o) = strip o := by
+  match o with
+  | .arr items => simp [normLen, strip, normLenList_strip st items]
+  | .dict es =>
+    simp only [normLen]
+    split
+    · rfl
+    · simp [strip, normLenDict_strip st es]
+  | .stream d c =>
+    simp only [normLen]
+    split
+    · rfl
+    · split
+      · simp [strip, normLenDict_strip st d]
+      · simp [setContent, strip, stripDict_set, set_set, normLenDict_strip st d]
+  | .null | .bool _ | .int _ | .real _ | .name _ | .ref _ _ | .str _ _ => simp [normLen]
+theorem normLenList_strip (st : EncState) (os : List Obj) : stripList (normLenList st os) = stripList os := by
+  match os with
+  | [] => rfl
+  | o :: rest => simp [normLenList, stripList, normLen_strip st o, normLenList_strip st rest]
+theorem normLenDict_strip (st : EncState) (es : List (Bytes × Obj)) : stripDict (normLenDict st es) = stripDict es := by
+  match es with
+  | [] => rfl
+  | (k, o) :: rest => simp [normLenDict, stripDict, normLen_strip st o, normLenDict_strip st rest]
+end
+
+theorem isObjStm_strip (o : Obj) : isObjStmStream (strip o) = isObjStmStream o := by
+  cases o <;> simp [strip, isObjStmStream, hasType_setLength, hasType_strip]
+
+theorem isObjStm_normLen (st : EncState) (o : Obj) : isObjStmStream (normLen st o) = isObjStmStream o := by
+  rw [← isObjStm_strip, normLen_strip, isObjStm_strip]
+
+theorem extras_nil (os : Objects) (h : ∀ e ∈ os, isObjStmStream e.2 = false) : objStmExtras os = some [] := by
+  induction os with
+  | nil => rfl
+  | cons e rest ih =>
+    obtain ⟨i, o⟩ := e
+    have h1 : isObjStmStream o = false := h (i, o) (by simp)
+    have h2 := ih (fun e he => h e (by simp [he]))
+    cases o <;> simp_all [objStmExtras, isObjStmStream]
+
+theorem mem_insert (os : Objects) (id : ObjId) (x : Obj) (e : ObjId × Obj) (h : e ∈ Objects.insert os id x) :
+    e = (id, x) ∨ e ∈ os := by
+  induction os with
+  | nil => simp [Objects.insert] at h; exact Or.inl h
+  | cons e' rest ih =>
+    obtain ⟨i, o⟩ := e'
+    unfold Objects.insert at h
+    split at h
+    · simp at h; rcases h with h | h
+      · exact Or.inl h
+      · exact Or.inr (by simp [h])
+    · split at h
+      · simp at h; rcases h with h | h | h
+        · exact Or.inl h
+        · exact Or.inr (by simp [h])
+        · exact Or.inr (by simp [h])
+      · simp at h; rcases h with h | h
+        · exact Or.inr (by simp [h])
+        · rcases ih h with h | h
+          · exact Or.inl h
+          · exact Or.inr (by simp [h])
+
+theorem get_insert_ne (os : Objects) (id id' : ObjId) (x : Obj) (h : id' ≠ id) :
+    Objects.get (Objects.insert os id x) id' = Objects.get os id' := by
+  induction os with
+  | nil => simp [Objects.insert, Objects.get, Ne.symm h]
+  | cons e rest ih =>
+    obtain ⟨i, o⟩ := e
+    unfold Objects.insert
+    split
+    · rename_i hi; subst hi; simp [Objects.get, Ne.symm h]
+    · split
+      · simp [Objects.get, Ne.symm h]
+      · by_cases hi : i = id' <;> simp [Objects.get, hi, ih]
+
+/-- **members of object streams never replace or remove an existing object**: whatever the containers
+hold, every object that was there before the re-expansion is there afterwards, unchanged -/
+theorem orInsertAll_keeps (os : Objects) (extras : List (ObjId × Obj)) (id : ObjId) (o : Obj)
+    (h : Objects.get os id = some o) : Objects.get (orInsertAll os extras) id = some o := by
+  induction extras generalizing os with
+  | nil => exact h
+  | cons e rest ih =>
+    obtain ⟨i, x⟩ := e
+    simp only [orInsertAll]
+    apply ih
+    split
+    · exact h
+    · rename_i hnone
+      have hne : id ≠ i := by
+        intro e; subst e; simp [h] at hnone
+      rw [get_insert_ne _ _ _ _ hne]; exact h
+
 /-! ## the document-level round trip, for any password that authenticates and yields the file key -/
 
 /-- the document `decrypt_raw` must give back: every object up to `normLen` (Length of processed
@@ -335,6 +431,7 @@ theorem doc_rt (P : Prims) (d enc : Doc) (st : EncState) (ivs : IVs) (pw : Bytes
     (htr : Dict.get d.trailer K_ENCRYPT = none)
     (hfresh : ∀ e ∈ d.objects, e.1 ≠ (d.maxId + 1, 0))
     (hfid : st.revision ≤ 4 → d.fileId.isSome = true)
+    (hnos : ∀ e ∈ d.objects, isObjStmStream e.2 = false)
     (henc : d.encrypt P st ivs = .ok enc)
     (hauth : (algOf st).authAny P (d.fileId.getD []) pw = .ok ())
     (hkey : (algOf st).fileKey P (d.fileId.getD []) pw = .ok st.fileKey) :
@@ -382,6 +479,15 @@ theorem doc_rt (P : Prims) (d enc : Doc) (st : EncState) (ivs : IVs) (pw : Bytes
       have hsame : ({ st with fileKey := st.fileKey } : EncState) = st := rfl
       rw [hsame, ← henc]
       simp only [hdec']
+      have hex : objStmExtras (Objects.insert (List.map (fun e => (e.1, normLen st e.2)) d.objects) (d.maxId + 1, 0)
+          (.dict st.encode)) = some [] := by
+        apply extras_nil
+        intro e he
+        rcases mem_insert _ _ _ _ he with h | h
+        · rw [h]; rfl
+        · obtain ⟨e', he', hee⟩ := List.mem_map.mp h
+          rw [← hee]; simp only [isObjStm_normLen]; exact hnos e' he'
+      simp only [hex, orInsertAll]
       have hmap : ∀ e ∈ d.objects.map (fun e => (e.1, normLen st e.2)), e.1 ≠ (d.maxId + 1, 0) := by
         intro e he
         obtain ⟨e', he', hee⟩ := List.mem_map.mp he
@@ -563,14 +669,15 @@ theorem doc_rt_user_r234 (P : Prims) (hP : PrimsOK P) (d enc : Doc) (c : Config)
     (hfid : d.fileId = some fid) (hst : stateOfConfig P c fid rnd = .ok st) (hut : 16 ≤ rnd.uTail.length)
     (hperm : c.permissions &&& PERM_ALL = c.permissions) (hnd : (c.cryptFilters.map (·.1)).Nodup)
     (hiv : ∀ n, (ivs n).length = 16) (htr : Dict.get d.trailer K_ENCRYPT = none)
-    (hfresh : ∀ e ∈ d.objects, e.1 ≠ (d.maxId + 1, 0)) (henc : d.encrypt P st ivs = .ok enc)
+    (hfresh : ∀ e ∈ d.objects, e.1 ≠ (d.maxId + 1, 0))
+    (hnos : ∀ e ∈ d.objects, isObjStmStream e.2 = false) (henc : d.encrypt P st ivs = .ok enc)
     (hno : okB ((algOf st).authUserR4 P fid ((algOf st).recoverUser P c.userPw)) = false ∨
            effOwner c.ownerPw c.userPw = c.userPw) :
     enc.decryptRaw P c.userPw = .ok (restored st d) := by
   obtain ⟨hok, hr, hb⟩ := state4_ok P hP c fid rnd st hv hst hut hperm hnd
   have hrev : (decide (2 ≤ (algOf st).revision) && decide ((algOf st).revision ≤ 4)) = true := by
     simp [algOf, hr.1, hr.2]
-  apply doc_rt P d enc st ivs c.userPw hP.block hiv hok htr hfresh (fun _ => by simp [hfid]) henc
+  apply doc_rt P d enc st ivs c.userPw hP.block hiv hok htr hfresh (fun _ => by simp [hfid]) hnos henc
   · rw [hfid]; apply authAny_ok_of_user; unfold Alg.authUser; simp only [hrev, ↓reduceIte]; exact hb.hU
   · rw [hfid]; simp only [Option.getD_some]
     rcases hno with hno | hno
@@ -585,12 +692,13 @@ theorem doc_rt_owner_r234_restores (P : Prims) (hP : PrimsOK P) (d enc : Doc) (c
     (hfid : d.fileId = some fid) (hst : stateOfConfig P c fid rnd = .ok st) (hut : 16 ≤ rnd.uTail.length)
     (hperm : c.permissions &&& PERM_ALL = c.permissions) (hnd : (c.cryptFilters.map (·.1)).Nodup)
     (hiv : ∀ n, (ivs n).length = 16) (htr : Dict.get d.trailer K_ENCRYPT = none)
-    (hfresh : ∀ e ∈ d.objects, e.1 ≠ (d.maxId + 1, 0)) (henc : d.encrypt P st ivs = .ok enc) :
+    (hfresh : ∀ e ∈ d.objects, e.1 ≠ (d.maxId + 1, 0))
+    (hnos : ∀ e ∈ d.objects, isObjStmStream e.2 = false) (henc : d.encrypt P st ivs = .ok enc) :
     enc.decryptRaw P (effOwner c.ownerPw c.userPw) = .ok (restored st d) := by
   obtain ⟨hok, hr, hb⟩ := state4_ok P hP c fid rnd st hv hst hut hperm hnd
   have hrev : (decide (2 ≤ (algOf st).revision) && decide ((algOf st).revision ≤ 4)) = true := by
     simp [algOf, hr.1, hr.2]
-  apply doc_rt P d enc st ivs _ hP.block hiv hok htr hfresh (fun _ => by simp [hfid]) henc
+  apply doc_rt P d enc st ivs _ hP.block hiv hok htr hfresh (fun _ => by simp [hfid]) hnos henc
   · rw [hfid]; simp only [Option.getD_some]
     unfold Alg.authAny Alg.authOwner
     simp only [hrev, ↓reduceIte, authOwnerR4_of_user P (algOf st) fid c.ownerPw c.userPw hb.hO hb.hU]
@@ -803,13 +911,14 @@ document, for every document, configuration, password pair, salts and IVs. -/
 theorem doc_rt_owner_r56 (P : Prims) (hP : PrimsOK P) (d enc : Doc) (c : Config) (rnd : Rand) (rev : Nat) (ivs : IVs)
     (h : Cfg6 c rnd rev) (hiv : ∀ n, (ivs n).length = 16) (htr : Dict.get d.trailer K_ENCRYPT = none)
     (hfresh : ∀ e ∈ d.objects, e.1 ≠ (d.maxId + 1, 0))
+    (hnos : ∀ e ∈ d.objects, isObjStmStream e.2 = false)
     (henc : d.encrypt P (build6 P rev c rnd) ivs = .ok enc) :
     enc.decryptRaw P c.ownerPw = .ok (restored (build6 P rev c rnd) d) := by
   have hrev : rev = 5 ∨ rev = 6 := by rcases h.ver with ⟨_, r⟩ | ⟨_, r⟩ <;> simp [r]
   have hb := built6_of_build6 P c rnd rev h
   have hd := dispatch56 P hP _ _ _ _ _ _ _ hb
   apply doc_rt P d enc _ ivs c.ownerPw hP.block hiv (build6_ok P hP c rnd rev h) htr hfresh
-    (fun hr => by simp only [build6] at hr; omega) henc
+    (fun hr => by simp only [build6] at hr; omega) hnos henc
   · unfold Alg.authAny
     rw [(hd _ _).2.1, authOwnerR6_built P hP _ _ _ _ _ _ _ hb]
   · rw [(hd _ _).1]; exact fileKeyR6_owner_built P hP _ _ _ _ _ _ _ hb
@@ -819,6 +928,7 @@ password does not pass the owner test unless it is the owner password — no has
 theorem doc_rt_user_r56 (P : Prims) (hP : PrimsOK P) (d enc : Doc) (c : Config) (rnd : Rand) (rev : Nat) (ivs : IVs)
     (h : Cfg6 c rnd rev) (hiv : ∀ n, (ivs n).length = 16) (htr : Dict.get d.trailer K_ENCRYPT = none)
     (hfresh : ∀ e ∈ d.objects, e.1 ≠ (d.maxId + 1, 0))
+    (hnos : ∀ e ∈ d.objects, isObjStmStream e.2 = false)
     (henc : d.encrypt P (build6 P rev c rnd) ivs = .ok enc)
     (hno : hashRev P rev (trunc127 c.userPw) (rnd.oSalts.take 8) (build6 P rev c rnd).userValue
              = hashRev P rev (trunc127 c.ownerPw) (rnd.oSalts.take 8) (build6 P rev c rnd).userValue →
@@ -828,7 +938,7 @@ theorem doc_rt_user_r56 (P : Prims) (hP : PrimsOK P) (d enc : Doc) (c : Config) 
   have hd := dispatch56 P hP _ _ _ _ _ _ _ hb
   apply doc_rt P d enc _ ivs c.userPw hP.block hiv (build6_ok P hP c rnd rev h) htr hfresh
     (fun hr => by have hrev : rev = 5 ∨ rev = 6 := by (rcases h.ver with ⟨_, r⟩ | ⟨_, r⟩ <;> simp [r])
-                  simp only [build6] at hr; omega) henc
+                  simp only [build6] at hr; omega) hnos henc
   · apply authAny_ok_of_user
     rw [(hd _ _).2.2]; exact authUserR6_built P hP _ _ _ _ _ _ _ hb
   · rw [(hd _ _).1]; exact fileKeyR6_user_built P hP _ _ _ _ _ _ _ hb hno
@@ -839,7 +949,8 @@ theorem doc_rt_r56_of_config (P : Prims) (hP : PrimsOK P) (d enc : Doc) (c : Con
     (rev : Nat) (st : EncState) (ivs : IVs)
     (h : Cfg6 c rnd rev) (hst : stateOfConfig P c fid rnd = .ok st)
     (hiv : ∀ n, (ivs n).length = 16) (htr : Dict.get d.trailer K_ENCRYPT = none)
-    (hfresh : ∀ e ∈ d.objects, e.1 ≠ (d.maxId + 1, 0)) (henc : d.encrypt P st ivs = .ok enc) :
+    (hfresh : ∀ e ∈ d.objects, e.1 ≠ (d.maxId + 1, 0))
+    (hnos : ∀ e ∈ d.objects, isObjStmStream e.2 = false) (henc : d.encrypt P st ivs = .ok enc) :
     enc.decryptRaw P c.ownerPw = .ok (restored st d) ∧
     ((hashRev P rev (trunc127 c.userPw) (rnd.oSalts.take 8) st.userValue
         = hashRev P rev (trunc127 c.ownerPw) (rnd.oSalts.take 8) st.userValue → trunc127 c.userPw = trunc127 c.ownerPw) →
@@ -849,12 +960,115 @@ theorem doc_rt_r56_of_config (P : Prims) (hP : PrimsOK P) (d enc : Doc) (c : Con
     · rw [stateOfConfig_r5 P c fid rnd hv h.key] at hst; injection hst with hst; rw [← hst, hr]
     · rw [stateOfConfig_v5 P c fid rnd hv h.key] at hst; injection hst with hst; rw [← hst, hr]
   subst hst'
-  exact ⟨doc_rt_owner_r56 P hP d enc c rnd rev ivs h hiv htr hfresh henc,
-         fun hno => doc_rt_user_r56 P hP d enc c rnd rev ivs h hiv htr hfresh henc hno⟩
+  exact ⟨doc_rt_owner_r56 P hP d enc c rnd rev ivs h hiv htr hfresh hnos henc,
+         fun hno => doc_rt_user_r56 P hP d enc c rnd rev ivs h hiv htr hfresh hnos henc hno⟩
 
 /-- non-vacuity: the witness instance of the primitives satisfies `PrimsOK` -/
 theorem toy_primsOK : PrimsOK toy :=
   ⟨toy_blockOK, fun x => by simp [toy, fit], fun x => by simp [toy, fit], fun x => by simp [toy, fit],
    fun x => by simp [toy, fit]⟩
+
+
+/-! ### documents that hold object streams -/
+
+theorem get_erase_ne (os : Objects) (id id' : ObjId) (h : id' ≠ id) :
+    Objects.get (Objects.erase os id) id' = Objects.get os id' := by
+  induction os with
+  | nil => rfl
+  | cons e rest ih =>
+    obtain ⟨i, o⟩ := e
+    simp [Objects.erase] at ih ⊢
+    by_cases hi : i = id
+    · subst hi
+      have : ¬ (i = id') := fun e => h e.symm
+      simp [List.filter_cons, Objects.get, this, ih]
+    · by_cases hi' : i = id'
+      · subst hi'; simp [List.filter_cons, hi, Objects.get]
+      · simp [List.filter_cons, hi, Objects.get, hi', ih]
+
+theorem get_map_of_mem (st : EncState) (os : Objects) (e : ObjId × Obj) (hn : (os.map (·.1)).Nodup) (he : e ∈ os) :
+    Objects.get (os.map (fun e => (e.1, normLen st e.2))) e.1 = some (normLen st e.2) := by
+  induction os with
+  | nil => cases he
+  | cons x rest ih =>
+    obtain ⟨i, o⟩ := x
+    simp only [List.map_cons, List.nodup_cons] at hn
+    rcases List.mem_cons.mp he with h | h
+    · subst h; simp [Objects.get]
+    · have hne : ¬ (i = e.1) := by
+        intro hi; apply hn.1; rw [hi]; exact List.mem_map_of_mem h
+      simp [Objects.get, hne, ih hn.2 h]
+
+/-- **doc_rt for documents with object streams.**  Without the "no ObjStm" hypothesis: whatever the
+(decrypted) object streams hold, `decrypt_raw` after `encrypt` still gives back EVERY original object
+(up to `normLen`), the trailer, and removes the encryption dictionary; the members of the object
+streams are only added under ids that were absent (`or_insert`). -/
+theorem doc_rt_objstm (P : Prims) (d enc : Doc) (st : EncState) (ivs : IVs) (pw : Bytes)
+    (hk : ∀ key, BlockOK P key) (hiv : ∀ n, (ivs n).length = 16)
+    (hst : StateOK st)
+    (htr : Dict.get d.trailer K_ENCRYPT = none)
+    (hfresh : ∀ e ∈ d.objects, e.1 ≠ (d.maxId + 1, 0))
+    (hnodup : (d.objects.map (·.1)).Nodup)
+    (hfid : st.revision ≤ 4 → d.fileId.isSome = true)
+    (henc : d.encrypt P st ivs = .ok enc)
+    (hauth : (algOf st).authAny P (d.fileId.getD []) pw = .ok ())
+    (hkey : (algOf st).fileKey P (d.fileId.getD []) pw = .ok st.fileKey)
+    (extras : List (ObjId × Obj))
+    (hex : objStmExtras (Objects.insert (d.objects.map (fun e => (e.1, normLen st e.2))) (d.maxId + 1, 0)
+             (.dict st.encode)) = some extras) :
+    ∃ d', enc.decryptRaw P pw = .ok d' ∧ d'.trailer = d.trailer ∧
+      ∀ e ∈ d.objects, Objects.get d'.objects e.1 = some (normLen st e.2) := by
+  unfold Doc.encrypt at henc
+  split at henc
+  · cases henc
+  · split at henc
+    · cases henc
+    · rename_i os k' hobj
+      injection henc with henc
+      have hfid' : enc.fileId = d.fileId := by
+        rw [← henc]; simp [Doc.fileId, get_set_ne d.trailer K_ENCRYPT K_ID _ (by decide)]
+      have htrget : Dict.get enc.trailer K_ENCRYPT = some (.ref (d.maxId + 1) 0) := by
+        rw [← henc]; exact get_set_eq _ _ _
+      have hget : enc.getEncrypted = some st.encode := by
+        unfold Doc.getEncrypted
+        rw [htrget]
+        simp only [Obj.asRef, Option.bind_some]
+        apply getDictionary_of_dict
+        rw [← henc]; exact get_insert_self _ _ _
+      have hids : os.map (·.1) = d.objects.map (·.1) := by
+        have := encObjects_ids P st ivs d.objects 0 _ hobj; simpa using this
+      have hfresh' : ∀ e ∈ os, e.1 ≠ (d.maxId + 1, 0) := by
+        intro e he habs
+        have : e.1 ∈ os.map (·.1) := List.mem_map_of_mem he
+        rw [hids] at this
+        obtain ⟨e', he', hee⟩ := List.mem_map.mp this
+        exact hfresh e' he' (by rw [hee, habs])
+      have hdec := objects_rt P st ivs hk hiv (some (d.maxId + 1, 0)) d.objects 0 _ hobj
+        (by intro e he habs; injection habs with habs; exact hfresh e he habs)
+      simp only at hdec
+      have hdec' := decObjects_insert P st (d.maxId + 1, 0) (.dict st.encode) os _ hfresh' hdec
+      have hrev : (algOf st).revision = st.revision := rfl
+      have hmiss : (decide ((algOf st).revision ≤ 4) && d.fileId.isNone) = false := by
+        by_cases h4 : st.revision ≤ 4
+        · have := hfid h4; cases hd : d.fileId <;> simp_all
+        · simp [hrev, h4]
+      have hsame : ({ st with fileKey := st.fileKey } : EncState) = st := rfl
+      refine ⟨{ trailer := Dict.remove (Dict.set d.trailer K_ENCRYPT (.ref (d.maxId + 1) 0)) K_ENCRYPT,
+                objects := Objects.erase (orInsertAll (Objects.insert (d.objects.map (fun e => (e.1, normLen st e.2)))
+                  (d.maxId + 1, 0) (.dict st.encode)) extras) (d.maxId + 1, 0),
+                maxId := d.maxId + 1 }, ?_, ?_, ?_⟩
+      · unfold Doc.decryptRaw
+        simp only [hget, hfid', algOfDict_encode st hst, filterName_encode, hauth,
+          decodeState_encode P st hst _ pw st.fileKey hkey, htrget, Obj.asRef, Option.bind_some, hmiss]
+        rw [hsame, ← henc]
+        simp only [hdec', hex]
+        rfl
+      · simp [remove_set_new d.trailer K_ENCRYPT _ htr]
+      · intro e he
+        simp only
+        rw [get_erase_ne _ _ _ (hfresh e he)]
+        apply orInsertAll_keeps
+        rw [get_insert_ne _ _ _ _ (hfresh e he)]
+        exact get_map_of_mem st d.objects e hnodup he
 
 end Lopdf.Crypt
